@@ -310,6 +310,86 @@ def _explore(job):
     return duration, dict(counters), fails[:50], n
 
 
+# ---------------------------------------------------------------------------
+# a clock that moves *during* a call (every reading advances it): the number of
+# readings per call is not specified, so only the clauses that hold for any
+# monotonic clock are asserted: elapsed >= 0 and never above a requested
+# maximum, 0 <= leftover <= duration, elapsed values observed on one run of the
+# watch never decrease, split lengths >= 0.
+
+class TickingClock:
+    def __init__(self, start, tick):
+        self.t, self.tick, self.reads = start, tick, 0
+
+    def __call__(self):
+        v = self.t
+        self.t += self.tick
+        self.reads += 1
+        return v
+
+
+TICK_OPS = ['start', 'stop', 'elapsed', 'split', 'resume', 'restart', 'expired', 'leftover',
+            'elapsed_max1', 'enter', 'exit']
+TICK_STEPS = [0, 1.625, 0.125]
+
+
+def _tick_run(duration, tick, history):
+    """Runs one history from scratch under a ticking clock. -> problem or None"""
+    from oslo_utils import timeutils
+    clock = TickingClock(10.0, tick)
+    timeutils.now = clock
+    try:
+        w = timeutils.StopWatch(duration)
+        last_elapsed = None
+        for step, op in history:
+            clock.t += step
+            try:
+                r = _impl_apply(w, op)
+            except RuntimeError:
+                r = None
+                if op in ('start', 'restart', 'enter', 'exit'):
+                    return {'kind': 'legal-call-raised', 'op': op}
+                continue
+            if op in ('start', 'restart', 'enter'):
+                last_elapsed = None
+            if op in ('elapsed', 'elapsed_max1') or op == 'split':
+                e = r if op != 'split' else r[1]
+                if e < 0:
+                    return {'kind': 'negative-elapsed', 'op': op, 'got': e}
+                if op == 'elapsed_max1' and e > 1:
+                    return {'kind': 'exceeds-maximum', 'got': e}
+                if op != 'elapsed_max1':
+                    if last_elapsed is not None and e < last_elapsed:
+                        return {'kind': 'elapsed-went-backwards', 'before': last_elapsed, 'after': e}
+                    last_elapsed = e
+                if op == 'split' and r[2] < 0:
+                    return {'kind': 'negative-split-length', 'got': r[2]}
+            if op == 'leftover' and r is not None:
+                if r < 0 or (duration is not None and r > duration):
+                    return {'kind': 'leftover-out-of-range', 'got': r, 'duration': duration}
+        return None
+    finally:
+        _install_clock()
+
+
+def _tick_job(job):
+    import itertools
+    duration, tick, depth = job
+    n = 0
+    probs = []
+    acts = [(s_, o) for s_ in TICK_STEPS for o in TICK_OPS]
+    for d in range(1, depth + 1):
+        for hist in itertools.product(acts, repeat=d):
+            if hist[0][1] not in ('start', 'enter', 'restart'):
+                continue
+            n += 1
+            p = _tick_run(duration, tick, hist)
+            if p is not None and len(probs) < 5:
+                probs.append({'duration': duration, 'tick': tick,
+                              'history': [list(a) for a in hist], 'problem': p})
+    return n, probs
+
+
 def run(ctx):
     rep = ctx.new_report()
     depth = 7 if ctx.thorough else 6
@@ -337,6 +417,15 @@ def run(ctx):
             rep.fail(cls, dict(f['problem'], clock_origin=f.get('origin', 100)),
                      {'duration': duration, 'history': f['history'],
                       'origin': f.get('origin', 100), 'shadow': f.get('shadow', False)})
+    tick_jobs = [(d, t, 4 if ctx.thorough else 3) for d in (2.0, 0.5, None) for t in (0.25, 1.0)]
+    for n, probs in par.pmap(_tick_job, tick_jobs):
+        rep.count('ticking_clock_histories', n)
+        rep.count('evaluations', n)
+        rep.count('transitions', n)
+        rep.count('traces_validated_against_impl', n)
+        for p in probs:
+            rep.fail('ticking-clock:%s' % p['problem']['kind'], p,
+                     {'tick': [p['duration'], p['tick'], p['history']]})
     # constructor clause: negative durations are refused
     from oslo_utils import timeutils
     for d in (-1, -0.5, -1e-9):
@@ -368,6 +457,10 @@ def run(ctx):
 def replay(payload):
     """Plain re-execution of one history on a fresh watch, no explorer."""
     timeutils = _install_clock()
+    if 'tick' in payload:
+        d, t, hist = payload['tick']
+        p = _tick_run(d, t, [tuple(a) for a in hist])
+        return {'violates': p is not None, 'problem': p}
     if 'ctor' in payload:
         try:
             timeutils.StopWatch(payload['ctor'])
